@@ -62,6 +62,29 @@ def run(ctx):
     subs = [hexs(u) + '^-^' + 'aa' * 32 + '~' + hexs(b'digest/mi-sha256-03') for u in (b'https://example.com/a', b'https://example.com/b', b'https://example.com/c', b'/d')]
     for n in (2, 3, 4):
         groups.append([f'bsig.subset {hexs(b"https://example.com/v")}|{"bb" * 32}|5|10|{",".join(p)}' for p in perms(rng, subs[:n])])
+    # names that collide after case folding / canonicalisation: whatever the serializer does with them (refuse, merge) must not
+    # depend on Go's randomised map iteration: every insertion order, and the same call repeated many times
+    coll = [(b'X-Variant', [b'first']), (b'x-variant', [b'second']), (b'Content-Type', [b'text/html']), (b'X-VARIANT', [b'third'])]
+    for n in (2, 3, 4):
+        for ver in ('b1', 'b2', 'b3'):
+            gc, gw = [], []
+            for p in perms(rng, coll[:n]):
+                e = ex(ver, b'https://example.com/', b'GET', [], 200, list(p), b'sig', b'payload')
+                gc += [f'sxg.hdr {exs(e)}'] * 3; gw += [f'sxg.write {exs(e)}'] * 2
+            groups += [gc, gw]
+        gb = []
+        for p in perms(rng, coll[:n]):
+            for bv in ('b1', 'b2'):
+                pass
+            gb += [f'bundle.write {bundle("b2", b"https://example.com/", None, None, [exch(b"https://example.com/", 200, list(p), b"body")])}'] * 4
+        groups.append(gb)
+        gb1 = []
+        for p in perms(rng, coll[:n]):
+            gb1 += [f'bundle.write {bundle("b1", b"https://example.com/", None, None, [exch(b"https://example.com/", 200, list(p), b"body")])}'] * 4
+        groups.append(gb1)
+    # plain repetition of every first op of a group (purity under repetition)
+    for g in list(groups):
+        groups.append([g[0]] * 12)
     flat = [op for g in groups for op in g]
     gres, mres = ctx.both(flat)
     i = 0
